@@ -238,6 +238,14 @@ def check_histories(histories, stats=None, pair_check=None):
             if ro == 'inexact' or mo == 'inexact':
                 if stats is not None:
                     stats.discarded += 1
+                # the exact model cannot follow from here on; an oracle that compares two routes of the
+                # IMPLEMENTATION with each other does not need it and still runs (seeded change C19f: a route
+                # that accumulates in another precision differs only on values the model cannot predict)
+                if pair_check is not None:
+                    why = pair_check(h, robs)
+                    if why is not None:
+                        diffs.append(Diff(hi, len(h) - 1, h[-1],
+                                          'property oracle on the implementation alone: ' + why, robs[-1], mobs[-1]))
                 break
             if drifted and ln.split()[0] not in ('state', 'fitsraw'):
                 continue          # model state no longer comparable; layout / read-path checks continue
